@@ -158,6 +158,22 @@ func (w *world) apply(s step) (string, error) {
 		id := w.id(s.Mode)
 		if s.Via == 0 {
 			dopts := []resource.WriteOption{resource.WithAllowMissing(s.Allow)}
+			if s.Extra && s.Masked {
+				// a conditional delete whose condition does not hold: nothing comes of it, now or later
+				dopts = append(dopts, resource.WithExpectedCheck(func(proto.Message) error {
+					return status.Error(codes.FailedPrecondition, "not while I am looking")
+				}))
+				err = w.m.DeleteMode(id, dopts...)
+				if modesBefore[id] {
+					if err == nil {
+						return "", fmt.Errorf("a delete of %q whose precondition check refuses succeeded", id)
+					}
+					if _, ok := w.m.FindMode(id); !ok {
+						return "", fmt.Errorf("a delete of %q whose precondition check refuses (%v) removed the mode", id, err)
+					}
+				}
+				break
+			}
 			if s.Extra {
 				dopts = append(dopts, resource.WithExpectedCheck(func(proto.Message) error { return nil }))
 			}
